@@ -527,6 +527,9 @@ def check_message_call(ctx, oid="C16.2", kinds=("p2wpkh", "p2wsh")):
         for c in s.calls:
             if c[0] == "bits.tx.txin":
                 sq = c[2].get("sequence") if isinstance(c[2], dict) and "sequence" in c[2] else (c[1][2] if len(c[1]) > 2 else None)
+                if sq is None:
+                    okd_, dv_ = ev.default_of(ctx.fn("bits.tx.txin"), "sequence")  # not given: the function's own default
+                    sq = dv_ if okd_ else None
                 if not any(tm.veq(sq, q) for q in seqs):
                     seqs.append(sq)
         R.check(oid, "PROV", fi, "%s: every txin() of send_tx is built with the same sequence (signed inputs = returned inputs)" % kind, len(seqs) == 1,
